@@ -323,9 +323,12 @@ class PeriodicMessageTask:
         """
         self.bus = bus
         self.period = period
+        # Take a copy of the data: can.Message would keep a reference to a
+        # bytearray, and update() could then never see a difference
         self.msg = can.Message(is_extended_id=can_id > 0x7FF,
                                arbitration_id=can_id,
-                               data=data, is_remote_frame=remote)
+                               data=None if data is None else bytes(data),
+                               is_remote_frame=remote)
         self._start()
 
     def _start(self):
